@@ -826,3 +826,110 @@ def disk_used_sum(crate, B=2):
     r = P.finish(ex, res, ["with an active blob, %d closed" % B, "without an active blob, 0 closed"])
     r.queries, r.solver_s = tq, ts
     return r
+
+
+def quarantine_moves_blob(crate):
+    """C07/C06: Storage::save_corrupted_blob (+ remove_index_by_blob_path): quarantining renames exactly the blob file it was
+    given to <parent>/<corrupted dir>/<same file name> - the bytes are moved, never copied-and-deleted, truncated or
+    removed - and the only file removed is that blob's INDEX file (path.with_extension(index)), after the move
+    succeeded; a failed directory creation or move is returned and nothing is removed.  Paths are uninterpreted terms
+    (parent / file_name / join / with_extension)."""
+    res = P.ObResult("quarantine_moves_blob")
+    fn = crate.method("Storage", "save_corrupted_blob")
+    res.functions = ["Storage::save_corrupted_blob (async body)", "Storage::remove_index_by_blob_path (async body)"]
+    res.bounds = "one call, directory / index file present or not, every outcome of create_dir / rename / remove_file"
+    from .symex import FutureV
+
+    def tag_of(ex_, st_, v):
+        n = 0
+        while isinstance(v, Ref) and n < 6:
+            v = ex_.read_path(st_, v.cell, v.proj); n += 1
+        return getattr(v, "tag", None) if isinstance(v, Obj) else None
+
+    def mk(st_, ty, tag, as_ref):
+        o = Obj(ty); o.tag = tag
+        return Ref(st_.new_cell(o), (), False, "&" + ty) if as_ref else o
+
+    def h_parent(ex_, st_, fr, t, nf, a, d):
+        r = Obj(d); r.discr = Sym(z3.If(z3.Bool("has_parent"), BV64(1), BV64(0)), "isize")
+        r.fields[("Some", 0)] = mk(st_, "std::path::Path", ("parent", tag_of(ex_, st_, a[0])), True)
+        return [(r, None)]
+
+    def h_file_name(ex_, st_, fr, t, nf, a, d):
+        r = Obj(d); r.discr = Sym(z3.If(z3.Bool("has_file_name"), BV64(1), BV64(0)), "isize")
+        r.fields[("Some", 0)] = mk(st_, "OsStr", ("file_name", tag_of(ex_, st_, a[0])), True)
+        return [(r, None)]
+
+    def h_to_os(ex_, st_, fr, t, nf, a, d):
+        return [(mk(st_, d, tag_of(ex_, st_, a[0]), False), None)]
+
+    def h_join(ex_, st_, fr, t, nf, a, d):
+        return [(mk(st_, d, ("join", tag_of(ex_, st_, a[0]), tag_of(ex_, st_, a[1]) or "corrupted_dir_name"), False), None)]
+
+    def h_with_ext(ex_, st_, fr, t, nf, a, d):
+        return [(mk(st_, d, ("with_extension", tag_of(ex_, st_, a[0]), "index_ext"), False), None)]
+
+    def h_deref(ex_, st_, fr, t, nf, a, d):
+        return [(a[0], None)]
+
+    def h_exists(ex_, st_, fr, t, nf, a, d):
+        b = z3.Bool(fresh_name("exists"))
+        st_.events.append(("exists", nf, [tag_of(ex_, st_, a[0])], Sym(b, "bool")))
+        return [(Sym(b, "bool"), None)]
+
+    def h_fs(ex_, st_, fr, t, nf, a, d):
+        return [(FutureV(nf, [tag_of(ex_, st_, x) for x in a], None, "havoc"), None)]
+    ex = P.mk_executor(crate, cap=2, loop_bound=3, inline=[r"^Storage::remove_index_by_blob_path$"],
+                       extra_summaries=[(r"^(std::path::)?Path::parent$", h_parent), (r"^(std::path::)?Path::file_name$", h_file_name),
+                                        (r"^(std::ffi::)?OsStr::to_os_string$", h_to_os), (r"^(std::path::)?Path::join(::<.*>)?$", h_join),
+                                        (r"^(std::path::)?Path::with_extension(::<.*>)?$", h_with_ext),
+                                        (r"^<(std::path::)?PathBuf as (std::ops::)?Deref>::deref$", h_deref), (r"^(std::path::)?Path::exists$", h_exists),
+                                        (r"^tokio::fs::(create_dir|rename|remove_file|remove_dir_all|copy|write|create_dir_all)(::<.*>)?$", h_fs)])
+    ex.inline_all_coroutines = False
+    st = State()
+    p = Obj("std::path::Path"); p.tag = ("blob_path",)
+    pr = Ref(st.new_cell(p), (), False, "&std::path::Path")
+    dn = Obj("str"); dn.tag = ("corrupted_dir_name",)
+    outs = P.drive_async(ex, st, fn, [pr, Ref(st.new_cell(dn), (), False, "&str")])
+    res.paths = len(outs)
+    BLOB = ("blob_path",)
+    DEST = ("join", ("join", ("parent", BLOB), ("corrupted_dir_name",)), ("file_name", BLOB))
+    IDX = ("with_extension", BLOB, "index_ext")
+
+    def per_path(o, isok, payload):
+        fs = [e for e in o.events if e[0] == "await" and "tokio::fs::" in e[1]]
+        ops = [(e[1].split("tokio::fs::")[1].split("::")[0].split("<")[0], e[2], e[3]) for e in fs]
+        ren = [x for x in ops if x[0] == "rename"]
+        rem = [x for x in ops if x[0] == "remove_file"]
+        other = [x[0] for x in ops if x[0] not in ("rename", "remove_file", "create_dir")]
+        if other:
+            res.status = "violated"; res.detail = "quarantine performs %s" % other; return False
+        if len(ren) > 1 or len(rem) > 1:
+            res.status = "violated"; res.detail = "quarantine renames %d / removes %d files" % (len(ren), len(rem)); return False
+        if ren:
+            src, dst = ren[0][1][0], ren[0][1][1]
+            if src != BLOB or dst != DEST:
+                res.status = "violated"; res.detail = "quarantine moves %s to %s (expected the blob file to <parent>/<corrupted dir>/<file name>)" % (src, dst)
+                res.counterexample = {"rename_from": str(src), "rename_to": str(dst)}
+                return False
+        if not P.prove(ex, res, o, z3.Implies(isok, z3.BoolVal(len(ren) == 1)), "Ok => the blob file was moved"):
+            return False
+        if ren:
+            r_ok = ex.get_discr(o, ren[0][2]).t == BV64(0)
+            if not P.prove(ex, res, o, z3.Implies(isok, r_ok), "Ok => the move succeeded"):
+                return False
+        if rem:
+            if rem[0][1][0] != IDX:
+                res.status = "violated"; res.detail = "quarantine removes %s (only the blob's index file may be removed)" % (rem[0][1][0],)
+                res.counterexample = {"removed": str(rem[0][1][0])}
+                return False
+            if not ren or ops.index(ren[0]) > ops.index(rem[0]):
+                res.status = "violated"; res.detail = "index file removed before the blob was moved"; return False
+            if not P.prove(ex, res, o, ex.get_discr(o, ren[0][2]).t == BV64(0), "the index file is removed only after a successful move"):
+                return False
+            P.cover(ex, res, o, isok, "moved, index removed")
+        P.cover(ex, res, o, z3.And(z3.Not(isok), z3.BoolVal(bool(ren) and not rem)), "move failed: nothing removed")
+        P.cover(ex, res, o, z3.And(isok, z3.BoolVal(not rem)), "moved, no index file")
+        return True
+    _check_paths(ex, res, outs, per_path)
+    return P.finish(ex, res, ["moved, index removed", "move failed: nothing removed", "moved, no index file"])
